@@ -646,6 +646,94 @@ def rule_hyper_count(ctx):
     return r
 
 
+# -------------------------------------------------- partial contraction routes
+def rule_partial_contraction_inds(ctx):
+    r = RuleResult(
+        "partial-contraction-inds",
+        "sibling agreement over every routine that contracts a *subset* of a network's tensors with tensor_contract and puts "
+        "the result back into that network (contract_between, contract_ind, contract_tags, pair / loop simplification, "
+        "contracting gates): which labels the local contraction keeps must be decided with network-wide holder information — "
+        "output_inds derived from compute_contracted_inds(...) or from an expression over an ind_map — because the default of "
+        "tensor_contract (keep what appears once among the operands) sums a label that other tensors of the network still hold "
+        "(a hyper index) too early, silently changing the network's value",
+    )
+    n = 0
+    for modname in ("quimb.tensor.tensor_core", "quimb.tensor.gating"):
+        mod = ctx.prog.modules.get(modname)
+        if mod is None:
+            raise AnalysisError(f"module {modname} not found")
+        for f in mod.all_functions:
+            if f.is_alias or isinstance(f.node, ast.Lambda):
+                continue
+            defs = {}
+            for x in ast.walk(f.node):
+                if isinstance(x, ast.Assign) and len(x.targets) == 1:
+                    t0 = x.targets[0]
+                    for nm in ([t0] if isinstance(t0, ast.Name) else [e for e in t0.elts if isinstance(e, ast.Name)] if isinstance(t0, (ast.Tuple, ast.List)) else []):
+                        defs.setdefault(nm.id, []).append(x.value)
+            for st in ast.walk(f.node):
+                call = None
+                result = None
+                if isinstance(st, ast.Assign) and isinstance(st.value, ast.Call) and dotted(st.value.func) == "tensor_contract" and isinstance(st.targets[0], ast.Name):
+                    call, result = st.value, st.targets[0].id
+                elif isinstance(st, ast.AugAssign) and isinstance(st.op, (ast.BitOr, ast.BitAnd)) and isinstance(st.value, ast.Call) and dotted(st.value.func) == "tensor_contract":
+                    call, result = st.value, "<attached>"
+                if call is None:
+                    continue
+                # is the result put back into a network?
+                readded = result == "<attached>"
+                if not readded:
+                    for x in ast.walk(f.node):
+                        if isinstance(x, ast.Call) and isinstance(x.func, ast.Attribute) and x.func.attr == "add_tensor" and x.lineno > call.lineno \
+                                and any(isinstance(a, ast.Name) and a.id == result for a in x.args):
+                            readded = True
+                        if isinstance(x, ast.AugAssign) and isinstance(x.op, (ast.BitOr, ast.BitAnd)) and x.lineno > call.lineno \
+                                and any(isinstance(a, ast.Name) and a.id == result for a in ast.walk(x.value)):
+                            readded = True
+                # are the operands taken out of a network?
+                taken = any(
+                    isinstance(x, ast.Attribute) and x.attr in ("pop_tensor", "_tids_get", "_inds_get", "partition_tensors", "tensor_map")
+                    for a in call.args for x in ast.walk(a)
+                )
+                for a in call.args:
+                    for nm in ast.walk(a):
+                        if isinstance(nm, ast.Name):
+                            for d in defs.get(nm.id, []):
+                                if any(isinstance(x, ast.Attribute) and x.attr in ("pop_tensor", "_tids_get", "_inds_get", "partition_tensors", "tensor_map") for x in ast.walk(d)):
+                                    taken = True
+                if not (readded and taken):
+                    continue
+                n += 1
+                construct = f.qualname
+                where = f"{f.module.relpath}:{call.lineno}"
+                oi = next((k.value for k in call.keywords if k.arg == "output_inds"), None)
+                ok = False
+                why = "no output_inds is given"
+                if oi is not None:
+                    todo, seen = [oi], set()
+                    while todo:
+                        e = todo.pop()
+                        for x in ast.walk(e):
+                            if isinstance(x, ast.Call) and isinstance(x.func, ast.Attribute) and x.func.attr == "compute_contracted_inds":
+                                ok = True
+                            if isinstance(x, ast.Attribute) and x.attr == "ind_map":
+                                ok = True
+                            if isinstance(x, ast.Name) and x.id not in seen:
+                                seen.add(x.id)
+                                todo.extend(defs.get(x.id, []))
+                    why = f"output_inds=`{src_of(oi)}` is not derived from compute_contracted_inds / an ind_map"
+                if ok:
+                    r.ok(f"{construct}@{call.lineno}", sample={"route": f.qualname, "kept labels": src_of(oi)[:50]})
+                else:
+                    r.bad(Finding(
+                        "partial-contraction-inds", construct,
+                        f"contracts tensors taken from the network and puts the result back, but {why}: a label that other tensors of the network "
+                        "also hold is summed as soon as two of its holders are contracted (A(x,h) B(h,y) C(h,z): contracting A,B first sums h)",
+                        where=where, operand="output_inds"))
+    r.floor(n, 3, "partial contraction routes")
+    return r
+
+
 # ------------------------------------------------------------- view-accrual
 SELECTORS = ("select", "select_any", "select_all", "select_neighbors", "select_local", "_select_tids", "_select_without_tids", "select_sites")
 
